@@ -164,6 +164,12 @@ class Ref:
                     break
                 if self.pos == before:
                     raise Fail(hard=True)   # would not terminate
+            # an LL(1) parser detects the error here: a token that can neither start the body nor follow the
+            # construct.  Inside an ordered-choice attempt this fails the alternative (and lets a later one be
+            # tried); elsewhere the input is not a sentence anyway.
+            fol = self.g.follow.get(('n', x['id']))
+            if fol is not None and self.cur() not in fol and not (self.cur() in fs and self.pos < len(self.toks)):
+                raise Fail()
         elif k == 'paren':
             if x.get('op') is not None:
                 self.rx(x['op'], env)
